@@ -9,12 +9,32 @@ import NixModel.Drive.Store
 import NixModel.Drive.Modes
 import NixModel.Drive.Crash
 import NixModel.Drive.Ids
+import NixModel.Drive.Props
+import NixModel.Drive.Frame
 /-
   nixmodel: reads a trace (op lines with the implementation's recorded result after `=>`),
   replays each op on the Lean model, evaluates the property relations on the implementation's
   observation, and prints one verdict per op line.
 -/
 open Nix Nix.Proto Nix.Drive
+
+/-- the family handlers, tried in order (a stateless handler is wrapped); merge-friendly: one line per family -/
+def handlers : List (DState → String → List String → List String → Option (DState × Out)) := [
+  fun st op args impl => (Version.handle op args impl).map fun o => (st, o),
+  fun st op args impl => (Region.handle op args impl).map fun o => (st, o),
+  fun st op args impl => (Units.handle op args impl).map fun o => (st, o),
+  Index.handle,
+  Array.handle,
+  Store.handle,
+  Modes.handle,
+  Crash.handle,
+  fun st op args impl => (Ids.handle st op args impl).map fun (st', o) =>
+    -- File::forceId is the one call that re-identifies: keep the store model's root in step
+    (if op == "id_forceid" && impl.head? == some "ok" then
+      { st' with smodel := { st'.smodel with store := st'.smodel.store.setAttr 0 "id" ((impl[1]?).getD "?") } } else st', o),
+  Props.handle,
+  Frame.handle
+]
 
 def step (st : DState) (line : String) : DState × Option String :=
   if line.isEmpty || line.startsWith "#" || line.startsWith "@" then (st, none) else
@@ -23,36 +43,8 @@ def step (st : DState) (line : String) : DState × Option String :=
   | [] => (st, none)
   | op :: args =>
     if op == "reset" then ({}, none) else
-    match Version.handle op args impl with
-    | some o => (st, some o.render)
-    | none =>
-    match Region.handle op args impl with
-    | some o => (st, some o.render)
-    | none =>
-    match Units.handle op args impl with
-    | some o => (st, some o.render)
-    | none =>
-    match Index.handle st op args impl with
+    match handlers.findSome? fun h => h st op args impl with
     | some (st', o) => (st', some o.render)
-    | none =>
-    match Array.handle st op args impl with
-    | some (st', o) => (st', some o.render)
-    | none =>
-    match Store.handle st op args impl with
-    | some (st', o) => (st', some o.render)
-    | none =>
-    match Modes.handle st op args impl with
-    | some (st', o) => (st', some o.render)
-    | none =>
-    match Crash.handle st op args impl with
-    | some (st', o) => (st', some o.render)
-    | none =>
-    match Ids.handle st op args impl with
-    | some (st', o) =>
-      -- File::forceId is the one call that re-identifies: keep the store model's root in step
-      let st' := if op == "id_forceid" && impl.head? == some "ok" then
-          { st' with smodel := { st'.smodel with store := st'.smodel.store.setAttr 0 "id" ((impl[1]?).getD "?") } } else st'
-      (st', some o.render)
     | none => (st, some Out.unknown.render)
 
 partial def loop (h : IO.FS.Stream) (out : IO.FS.Stream) (st : DState) : IO Unit := do
